@@ -2,15 +2,16 @@
   C07, "never hangs", second part: the fuelled loops of the GenBank reader model that are PURE
   functions of bytes (no parser state):
 
-  * `splitOn` (`strings.Split` behind `FlatFileSplit` and `AsDate`): one byte per step;
+  * `splitOn` (`strings.Split` behind `FlatFileSplit` and `AsDate`, non-empty separator): at least
+    one byte per step;
   * `stripCont` (the in-place loop of `quotedQualifierParser`): every round deletes the prefix, so
     the text gets shorter — for a NON-EMPTY prefix.  With the empty prefix the Go loop does not end
     and the model's answer IS the fuel running out (`stripCont_empty_prefix_artefact`); the table
     reader never passes it (the indent of a key line is at least one column);
   * the counter loops of the ORIGIN reader (`walkChars`, `walkGroups`, `validateLines`, the reader's
     own copy of `slowLines`): `for k < 10`, `for j < 60; j += 10`, `for i < length; i += 60`;
-  * `digitsAux` (the model of `fmt.Sprintf("%9d", ·)` inside `walkLine`; a library call, listed for
-    completeness).
+  * `digitsAux` and `natDigitsF` (the models of `fmt.Sprintf("%9d", ·)` inside `walkLine` and of
+    `strconv.Itoa` in the REFERENCE parser; library calls, listed for completeness).
 
   Every statement has the shape "two fuels above the bound give the same value".  Core Lean only.
   (`Gts/Bridge/OriginValidate.lean`, `OriginSlow.lean` prove the ORIGIN ones next to the regenerated
@@ -214,5 +215,16 @@ theorem digitsAux_fuel : ∀ (f f' n : Nat), n < f → n < f' →
     split
     · rfl
     · rw [digitsAux_fuel f f' (n / 10) (by omega) (by omega)]
+
+/-! ### `strconv.Itoa` (library model; the REFERENCE parser measures the width of the number) -/
+
+theorem natDigitsF_fuel : ∀ (f f' n : Nat), n < f → n < f' → natDigitsF f n = natDigitsF f' n
+  | 0, _, _, h, _ => absurd h (Nat.not_lt_zero _)
+  | _ + 1, 0, _, _, h => absurd h (Nat.not_lt_zero _)
+  | f + 1, f' + 1, n, h, h' => by
+    rw [natDigitsF, natDigitsF]
+    split
+    · rfl
+    · rw [natDigitsF_fuel f f' (n / 10) (by omega) (by omega)]
 
 end Gts.GenBank
